@@ -79,6 +79,19 @@ CHECKS = {
                 "spellings are enumerated. Known deviations are listed per string in known_findings.json.",
         "technique": SOLVER_TECH + "; oracle = CPython's own parser and eval on the same proxies",
     },
+    "C08": {
+        "level": "model_checking",
+        "text": "Bounded symbolic model checking: for every skeleton tree (depth <= 2 over all node kinds; thorough adds depth 3) "
+                "and 13 substitution-map shapes (keys as names / Variables / kwargs, swaps, replacements mentioning other keys, "
+                "whole subscript and look-up nodes, a key that would only match after another replacement, unused keys) the "
+                "real substitute() result (plain and memoizing mapper) is evaluated on z3 proxies and z3 proves per path that "
+                "it equals the original tree evaluated with every replaced name / node bound to its replacement's value. Path "
+                "assertions: untouched subtrees are the identical objects; plain and cached results are equal.",
+        "design_ref": "DESIGN.md §4 C08",
+        "note": "Trusted: refsem/evaluator as meaning (C02), proxies, z3. For the memoizing mapper the identity clause is only "
+                "asserted on trees without equal-but-distinct subtrees (memoization shares results between them).",
+        "technique": SOLVER_TECH,
+    },
 }
 
 _PENDING = "check not built yet in this session (the design in DESIGN.md applies; will be claimed once its harness exists)"
